@@ -14,12 +14,15 @@ More == Len(hist) < MaxLen
 Use(q, b) ==
   CASE UseRule = "spec" -> Allowed(q, b)
     [] UseRule = "noinclude" -> /\ b[q].present /\ b[q].fmt /\ b[q].sver = bootS /\ mtime[q] < b[q].mtime
-                                /\ \A i \in Inh(q) : mtime[i] < b[q].mtime /\ (b[i].present => b[i].mtime <= b[q].mtime)
+                                /\ \A i \in Inh(q) : (\A f \in Src(i) : mtime[f] < b[q].mtime) /\ (b[i].present => b[i].mtime <= b[q].mtime)
+    [] UseRule = "driver" -> /\ b[q].present /\ b[q].fmt /\ b[q].sver = bootS            \* what load_binary() checks: the inherited
+                             /\ \A f \in Src(q) : mtime[f] < b[q].mtime                  \* program's source file and binary, not its includes
+                             /\ \A i \in Inh(q) : mtime[i] < b[q].mtime /\ (b[i].present => b[i].mtime <= b[q].mtime)
     [] UseRule = "noinheritbin" -> /\ b[q].present /\ b[q].fmt /\ b[q].sver = bootS
                                    /\ \A f \in Src(q) : mtime[f] < b[q].mtime /\ \A i \in Inh(q) : mtime[i] < b[q].mtime
     [] UseRule = "nosimul" -> /\ b[q].present /\ b[q].fmt
                               /\ \A f \in Src(q) : mtime[f] < b[q].mtime
-                              /\ \A i \in Inh(q) : mtime[i] < b[q].mtime /\ (b[i].present => b[i].mtime <= b[q].mtime)
+                              /\ \A i \in Inh(q) : (\A f \in Src(i) : mtime[f] < b[q].mtime) /\ (b[i].present => b[i].mtime <= b[q].mtime)
 
 GLoad(p) ==
   LET uB == Use("B", bin)
